@@ -263,11 +263,18 @@ func (chain *groupChain) remove(group *types.Group) bool {
 		logger.Errorf("Query nil group by hash  while removing group! Hash:%s,height:%d, preHash :%s", hash.Hex(), height, common.ToHex(group.Header.PreGroup))
 		return false
 	}
-	chain.groups.Delete(group.Id)
-	chain.groups.Put([]byte(lastGroupKey), preGroup.Id)
-	chain.groups.Delete(generateKey(height))
+	// one batch: a node that dies half way must not restart with a last-group pointer,
+	// a count and a height index that disagree
+	batch := chain.groups.NewBatch()
+	batch.Delete(group.Id)
+	batch.Put([]byte(lastGroupKey), preGroup.Id)
+	batch.Delete(generateKey(height))
+	batch.Put([]byte(groupCountKey), utility.UInt64ToByte(chain.count-1))
+	if err := batch.Write(); err != nil {
+		logger.Errorf("remove group error:%s", err.Error())
+		return false
+	}
 	chain.count--
-	chain.groups.Put([]byte(groupCountKey), utility.UInt64ToByte(chain.count))
 	chain.lastGroup = preGroup
 	if err := mysql.DeleteGroup(group.Id); err != nil {
 		panic(err)
@@ -283,11 +290,17 @@ func (chain *groupChain) save(group *types.Group) error {
 		return err
 	}
 
-	chain.groups.Put(group.Id, data)
-	chain.groups.Put([]byte(lastGroupKey), group.Id)
-	chain.groups.Put(generateKey(chain.count), group.Id)
+	// one batch: see remove
+	batch := chain.groups.NewBatch()
+	batch.Put(group.Id, data)
+	batch.Put([]byte(lastGroupKey), group.Id)
+	batch.Put(generateKey(chain.count), group.Id)
+	batch.Put([]byte(groupCountKey), utility.UInt64ToByte(chain.count+1))
+	if err = batch.Write(); err != nil {
+		logger.Errorf("Save group error:%s", err.Error())
+		return err
+	}
 	chain.count++
-	chain.groups.Put([]byte(groupCountKey), utility.UInt64ToByte(chain.count))
 	chain.lastGroup = group
 	logger.Debugf("Add group on chain success! Group id:%s,group pubkey:%s", hex.EncodeToString(group.Id), hex.EncodeToString(group.PubKey))
 
